@@ -21,6 +21,9 @@
      blocked               0: B completed while A was parked; 1: B waited for A and completed after A had been resumed
                            (serialisation, LazyTable variant LOCKED = "finally"); 2: B or A never completed although
                            nothing was parked (LazyTable!NeverBlockedForever)
+     b_builds              B's programme contains an operation that (re)builds the table (a multiplication, a verification);
+                           a programme of read-only / rescaling operations leaves the table as it is - but never shorter
+                           (LazyTable!TableNeverShrinks)
      n                     length of the table of the sequential run
      loc_len, loc_ok       A's local list
      pub_len, pub_ok, same self.__precompute before B ran; same = it IS A's local list
@@ -81,7 +84,8 @@ Verdict(ev, prev, hasPrev) ==
     ELSE IF hasPrev /\ (ev.idx > prev.idx + 1 \/ ~ev.adj) /\ ~StepN(AtS(prev), s) THEN "builder-steps"
     ELSE IF ~ReaderOK(b) THEN "reader-result"
     ELSE IF ~CoordsOK(b) THEN "reader-coords"
-    ELSE IF ev.mode # "scale" /\ ev.res > 0 /\ ~Complete(b) THEN "reader-table"
+    ELSE IF ev.b_len < ev.pub_len THEN "table-lost"
+    ELSE IF ev.mode # "scale" /\ ev.res > 0 /\ ev.b_builds /\ ~Complete(b) THEN "reader-table"
     ELSE IF ~ReaderOK(f) THEN "final-result"
     ELSE IF ~CoordsOK(f) THEN "final-coords"
     ELSE IF ev.mode # "scale" /\ ~Complete(f) THEN "final-table"
